@@ -147,7 +147,7 @@ class SPDom(Domain):
         em = st._replace(facts=st.facts | {(key, False)})
         return [("enter", ne), ("exit", em)]
 
-    def _sat(self, st, call, tested):
+    def _on_sat_call(self, st, call, tested):
         u = st.u
         self.sat_sites.add(call.lineno)
         only_sat = (not u.pending) and u.verified
@@ -172,7 +172,7 @@ class SPDom(Domain):
                 and call_name(atom.left) == "Sat" and isinstance(atom.comparators[0], ast.Attribute)
                 and atom.comparators[0].attr == "SAT" and isinstance(atom.ops[0], (ast.Eq, ast.NotEq))):
             eq = isinstance(atom.ops[0], ast.Eq)
-            return [((t == eq), s) for t, s in self._sat(st, atom.left, True)]
+            return [((t == eq), s) for t, s in self._on_sat_call(st, atom.left, True)]
         # call to a summarised function used directly as a test
         if isinstance(atom, ast.Call) and call_name(atom) in self.summaries:
             res = []
@@ -228,7 +228,7 @@ class SPDom(Domain):
             return [(FALL, st._replace(u=u._replace(asserted=u.asserted | {i}, model=False,
                                                      verified=u.verified and ok)), None)]
         if name == "Sat":
-            return [(FALL, s, None) for _, s in self._sat(st, call, False)]
+            return [(FALL, s, None) for _, s in self._on_sat_call(st, call, False)]
         if name == "build" and self.role != "diag":
             # field / expression build may Assert (enum domain) and creates nodes
             return [(FALL, st._replace(u=u._replace(verified=False if not u.pending else u.verified,
@@ -329,7 +329,7 @@ class SPInterp(Interp):
             from sa.sai import Outs
             outs = Outs()
             n = "sat:" + st.targets[0].id
-            for truth, x in dom._sat(s, st.value, True):
+            for truth, x in dom._on_sat_call(s, st.value, True):
                 acc = frozenset((a, b) for a, b in x.u.acc if a != n) | {(n, truth)}
                 outs.add(FALL, x._replace(u=x.u._replace(acc=acc)))
             return outs
@@ -343,7 +343,7 @@ class SPInterp(Interp):
             outs = Outs()
             n = st.targets[0].id
             eq = isinstance(st.value.ops[0], ast.Eq)
-            for truth, x in dom._sat(s, st.value.left, True):
+            for truth, x in dom._on_sat_call(s, st.value.left, True):
                 acc = frozenset((a, b) for a, b in x.u.acc if a != n) | {(n, truth == eq)}
                 outs.add(FALL, x._replace(u=x.u._replace(acc=acc)))
             return outs
